@@ -2,7 +2,7 @@ from decimal import Decimal
 from fractions import Fraction
 
 from rtamt.antlr.parser.stl.StlParserVisitor import StlParserVisitor
-from rtamt.syntax.ast.parser.ltl.parser_visitor import LtlAstParserVisitor
+from rtamt.syntax.ast.parser.ltl.parser_visitor import LtlAstParserVisitor, literal_to_number
 from rtamt.semantics.interval.interval import Interval
 
 from rtamt.syntax.node.ltl.disjunction import Disjunction
@@ -116,7 +116,7 @@ class StlAstParserVisitor(LtlAstParserVisitor, StlParserVisitor):
 
         val = self.const_val_dict[const_name]
 
-        out = Fraction(Decimal(val))
+        out = Fraction(Decimal(literal_to_number(val)))
 
         if ctx.unit() is None:
             unit = ''
@@ -127,7 +127,7 @@ class StlAstParserVisitor(LtlAstParserVisitor, StlParserVisitor):
 
 
     def visitIntervalTimeLiteral(self, ctx):
-        time_bound = Fraction(Decimal(ctx.literal().getText()))
+        time_bound = Fraction(Decimal(literal_to_number(ctx.literal().getText())))
         if ctx.unit() is None:
             unit = ''
         else:
